@@ -55,11 +55,11 @@ def likelihood_recipe(draw, mb, xb, n, kinds=("Gaussian", "Gaussian", "FixedNois
 
 def build_likelihood(r):
     if r["l"] == "Gaussian":
-        lik = gpytorch.likelihoods.GaussianLikelihood(batch_shape=torch.Size(r["batch"]))
+        lik = gpytorch.likelihoods.GaussianLikelihood(batch_shape=torch.Size(r["batch"]), **kern._prior_kwargs(r))
         lik.noise = T(r["noise"])
         return lik
     lik = gpytorch.likelihoods.FixedNoiseGaussianLikelihood(
-        noise=T(r["noise"]), learn_additional_noise=r["learn"], batch_shape=torch.Size(r["batch"])
+        noise=T(r["noise"]), learn_additional_noise=r["learn"], batch_shape=torch.Size(r["batch"]), **kern._prior_kwargs(r)
     )
     if r["learn"]:
         lik.second_noise = T(r["second_noise"])
@@ -69,13 +69,13 @@ def build_likelihood(r):
 def ref_noise_diag(r, n, batch_shape, test_noise=None):
     """diagonal of the noise covariance S the likelihood adds for n points (broadcast to batch_shape + (n,))"""
     if r["l"] == "Gaussian":
-        s = T(r["noise"])  # (*mb, 1)
+        s = kern._t(r["noise"])  # (*mb, 1)
         return s.expand(*torch.broadcast_shapes(s.shape[:-1], batch_shape), n).clone()
-    base = T(r["noise"]) if test_noise is None else T(test_noise)
+    base = kern._t(r["noise"]) if test_noise is None else T(test_noise)
     bs = torch.broadcast_shapes(base.shape[:-1], batch_shape)
     out = base.expand(*bs, base.shape[-1]).clone()
     if r["learn"]:
-        s2 = T(r["second_noise"])
+        s2 = kern._t(r["second_noise"])
         out = out + s2
     return out
 
